@@ -2,8 +2,8 @@
    copy_one / copy_contract / ff_copy. *)
 From Pydra Require Import Base.Prelude Base.PyPath Model.Mount Model.CopyFiles Spec.CopyFiles Proofs.CopyFiles.
 
-(* for every mount table, job directory, file system and list of fields (type gate, copy mode, value):
-   if the job directory is empty, the files exist and each requested mode can be realised on the mounts,
+(* for every mount table, job directory (whatever it already holds), file system and list of fields
+   (type gate, copy mode, value): if the files exist and each requested mode can be realised on the mounts,
    staging succeeds and meets the spec [staged] (shape and non-file values, class, a way permitted by
    the mode and the mounts with its observable behaviour — copy independent, link shows the original —,
    one FileSet.copy per distinct file-set of a field, nothing existing altered) *)
